@@ -170,6 +170,16 @@ func run1d(c Case, recs []Rec) (ref.Value, error) {
 	return o.Val, o.Err
 }
 
+// runImpl returns the implementation's own binning value (not a rebuilt copy).
+func runImpl(c Case, recs []Rec) (value.Value, error) {
+	args := append([]value.Value{recList(recs, c.Lazy)}, axisArgs(c.X)...)
+	if c.TwoD {
+		args = append(args, axisArgs(c.Y)...)
+		return fn("l.binning2d(s,z,n,t,u,m,e->e.x,e->e.y,e->e.w)", "l", "s", "z", "n", "t", "u", "m").Eval(args...)
+	}
+	return fn("l.binning(s,z,n,e->e.x,e->e.w)", "l", "s", "z", "n").Eval(args...)
+}
+
 func run2d(c Case, recs []Rec) (ref.Value, error) {
 	args := append([]value.Value{recList(recs, c.Lazy)}, axisArgs(c.X)...)
 	args = append(args, axisArgs(c.Y)...)
@@ -315,6 +325,41 @@ func check(c Case) string {
 		}
 		if !ref.Same(whole, got.Val, 0) {
 			return fmt.Sprintf("collectBinning over %d parts = %s, binning of the whole list = %s", len(parts), ref.Show(got.Val), ref.Show(whole))
+		}
+		// the same with the binning values the implementation itself returned, collected twice:
+		// collecting must not change the parts, and the second sum equals the first
+		var own []value.Value
+		var before []ref.Value
+		pos = 0
+		cut := append(append([]int{}, c.Parts...), len(c.Recs))
+		for _, n := range cut {
+			if pos >= len(c.Recs) && len(own) > 0 {
+				break
+			}
+			if pos+n > len(c.Recs) {
+				n = len(c.Recs) - pos
+			}
+			pv, err := runImpl(c, c.Recs[pos:pos+n])
+			if err != nil {
+				return "binning of a part fails: " + err.Error()
+			}
+			own = append(own, pv)
+			before = append(before, progs.Observe(pv, nil).Val)
+			pos += n
+		}
+		for round := 1; round <= 2; round++ {
+			got := progs.Observe(fn("l.collectBinning()", "l").Eval(value.NewList(own...)))
+			if got.Err != nil {
+				return fmt.Sprintf("collectBinning (round %d) fails: %v", round, got.Err)
+			}
+			if !ref.Same(whole, got.Val, 0) {
+				return fmt.Sprintf("collectBinning over the %d binning values (round %d) = %s, binning of the whole list = %s", len(own), round, ref.Show(got.Val), ref.Show(whole))
+			}
+			for i, pv := range own {
+				if now := progs.Observe(pv, nil).Val; !ref.Same(before[i], now, 0) {
+					return fmt.Sprintf("collectBinning (round %d) changed the binning of part %d from %s to %s", round, i, ref.Show(before[i]), ref.Show(now))
+				}
+			}
 		}
 	}
 	return ""
